@@ -22,6 +22,7 @@ type c18Case struct {
 	Suffix  int   `json:"suffix"`         // index into c18Suffixes (rotated per entity)
 	CLI     bool  `json:"cli"`            // additionally replay on the binary
 	Foreign bool  `json:"foreign"`        // place the foreign files
+	Big     bool  `json:"big,omitempty"`  // entity 0's configuration file starts with an 80 KiB comment block
 	Link    bool  `json:"link,omitempty"` // command line only: entity 0's configuration file is a symbolic link to a file kept elsewhere
 	Art     int   `json:"art,omitempty"`  // entity 0 already has an artifact file in an odd state (c18Arts), which must not change the verdict
 }
@@ -310,6 +311,12 @@ func c18Enumerate(tier string, yield func(any)) {
 					yield(&c18Case{N: n, Issuer: append([]int{}, iss...), AMode: make([]int, n), Layout: layout, Suffix: suf, Foreign: true, CLI: suf == 1 && layout == 1})
 					if suf == 1 && layout < 3 {
 						yield(&c18Case{N: n, Issuer: append([]int{}, iss...), AMode: make([]int, n), Layout: layout, Suffix: suf, Link: true, CLI: true})
+						// entity 0's file is large (a long comment block in front of its content)
+						yield(&c18Case{N: n, Issuer: append([]int{}, iss...), AMode: make([]int, n), Layout: layout, Suffix: suf, Big: true})
+						if layout == 0 {
+							// ... also where every file-derived alias collides (same base name in different directories)
+							yield(&c18Case{N: n, Issuer: append([]int{}, iss...), AMode: make([]int, n), Layout: 3, Big: true})
+						}
 					}
 					if suf == 1 {
 						for art := 1; art < len(c18Arts); art++ {
@@ -356,6 +363,10 @@ func c18Exec(x *engine.Ctx, cc any) {
 		if c.Art > 0 && len(d.Certs) > 0 {
 			w.Put(ArtifactPath(d.Certs[0].Path), c18Art(c.Art))
 		}
+		if c.Big && len(d.Certs) > 0 {
+			p := d.Certs[0].Path
+			w.Put(p, append([]byte(strings.Repeat("# "+strings.Repeat("~", 61)+"\n", 80<<10/64)), w.Files[p].Data...))
+		}
 		if c.Link && len(d.Certs) > 0 {
 			if mode == 0 {
 				continue // the in-memory filesystem has no links
@@ -366,7 +377,7 @@ func c18Exec(x *engine.Ctx, cc any) {
 			w.Symlinks = map[string]string{p: "templates/entity-zero.tpl"}
 		}
 		before := w.Clone()
-		x.State(fmt.Sprintf("%v %v %d %d %v %d %v", c.Issuer, c.AMode, c.Layout, c.Suffix, c.Foreign, c.Art, c.Link))
+		x.State(fmt.Sprintf("%v %v %d %d %v %d %v %v", c.Issuer, c.AMode, c.Layout, c.Suffix, c.Foreign, c.Art, c.Link, c.Big))
 		x.Transition(1)
 		var ok bool
 		var summary string
@@ -405,7 +416,7 @@ func c18Exec(x *engine.Ctx, cc any) {
 			if len(diff) > 0 {
 				x.Violation("C18/wrote-on-invalid/"+tag+"/"+c18Reason(why), fmt.Sprintf("hierarchy is invalid (%s), run said %q, yet the directory changed: %v", why, summary, diff))
 			}
-			x.Nontrivial(fmt.Sprintf("inv %v %v %d", c.Issuer, c.AMode, c.Layout))
+			x.Nontrivial(fmt.Sprintf("inv %v %v %d %v", c.Issuer, c.AMode, c.Layout, c.Big))
 			// the refusal does not depend on which generate-flags are set: the same directory with every flag
 			// switched off, and with generate-all alone
 			for _, st := range []db.UpdateStrategy{db.UpdateNone, db.UpdateAll} {
@@ -440,7 +451,7 @@ func c18Exec(x *engine.Ctx, cc any) {
 			continue
 		}
 		if c.N > 0 {
-			x.Nontrivial(fmt.Sprintf("val %v %v %d %d %d %v", c.Issuer, c.AMode, c.Layout, c.Suffix, c.Art, c.Link))
+			x.Nontrivial(fmt.Sprintf("val %v %v %d %d %d %v %v", c.Issuer, c.AMode, c.Layout, c.Suffix, c.Art, c.Link, c.Big))
 		}
 		// every entity's artifact sits next to its config; nothing else changed
 		want := map[string]bool{}
@@ -511,7 +522,7 @@ func init() {
 	register(&engine.Check{
 		ID:    "C18",
 		Level: "model_checking",
-		Rule: "every issuer function issuer:[n]->{none,0..n-1,undefined} for n<=4 (quick) / n<=6 (thorough); for n<=3 additionally every alias-mode vector in {file-derived, explicit unique, explicit = next entity's alias, explicit = next entity's file stem}^n x 7 directory layouts (incl. dots in directory and file names, and the same file name at the top level and nested ever deeper so that one path is the tail of another) and 6 suffix/letter-case variants x 4 layouts; for n in {2,3} every issuer function with two config files sharing directory and stem under 6 suffix pairs (alias collision); foreign files present (other suffixes, unparseable text, no version key, configuration suffix inside the name, hidden files and a hidden directory next to the configurations); for n<=3 also with entity 0's artifact file in five odd states (hash line that is not base64 or too short or unterminated, empty file, plain text), which must not change the verdict, and (command line) with entity 0's configuration file being a symbolic link to a file kept elsewhere. " +
+		Rule: "every issuer function issuer:[n]->{none,0..n-1,undefined} for n<=4 (quick) / n<=6 (thorough); for n<=3 additionally every alias-mode vector in {file-derived, explicit unique, explicit = next entity's alias, explicit = next entity's file stem}^n x 7 directory layouts (incl. dots in directory and file names, and the same file name at the top level and nested ever deeper so that one path is the tail of another) and 6 suffix/letter-case variants x 4 layouts; for n in {2,3} every issuer function with two config files sharing directory and stem under 6 suffix pairs (alias collision); foreign files present (other suffixes, unparseable text, no version key, configuration suffix inside the name, hidden files and a hidden directory next to the configurations); for n<=3 also with entity 0's artifact file in five odd states (hash line that is not base64 or too short or unterminated, empty file, plain text), which must not change the verdict, with entity 0's configuration file starting with an 80 KiB comment block (also where aliases collide), and (command line) with entity 0's configuration file being a symbolic link to a file kept elsewhere. " +
 			"Each case builds the directory, runs Open+Plan+BulkUpdate on simfs (and the built CLI binary for the flagged subset) and compares with the model valid <=> all issuers defined, acyclic, aliases unique; an invalid directory is run again with every generate-flag off and with generate-all alone (still refused, nothing written). non-trivial = distinct (issuer function, alias modes, layout, suffix) case that reached the verdict comparison",
 		Bound:       map[string]string{"entities": "quick<=4, thorough<=6", "alias/layout/suffix variants": "n<=3"},
 		Assumptions: []string{"file stems are distinct per directory and non-empty (a.yaml + a.yml sharing a.pem is outside the statement's quantifier)", "keys are P-224 to keep generation cheap; C18 does not depend on the key type"},
